@@ -114,8 +114,11 @@ func ParseAllContactValues(buf []byte, offs int, c *PContacts) (int, ErrorHdr) {
 		switch err {
 		case 0, ErrHdrMoreValues:
 			if c.N == 0 {
-				c.LastHVal = pf.V
 				c.MinExpires = ^uint32(0)
+			}
+			if c.N == 0 || c.LastHVal.Empty() {
+				// first value (of a new header)
+				c.LastHVal = pf.V
 			} else {
 				c.LastHVal.Extend(int(pf.V.Offs + pf.V.Len))
 			}
